@@ -243,26 +243,38 @@ func RenameBack(dir string, overlay map[string][]byte, goarch string, base *Base
 				}
 			}
 			sort.Slice(added, func(i, j int) bool { return added[i].Name() < added[j].Name() })
-			usedAdd := map[*types.Var]bool{}
+			// pair gone and new names type by type; several of one type are paired in declaration order (a rename
+			// keeps a field where it is), and only when their numbers agree
+			baseOrder := map[string]int{}
+			for i, f := range bf {
+				baseOrder[f[0]] = i
+			}
+			curOrder := map[*types.Var]int{}
+			for i := 0; i < st.NumFields(); i++ {
+				curOrder[st.Field(i)] = i
+			}
+			byTypeOld := map[string][]string{}
 			for _, old := range removed {
-				var match *types.Var
-				cnt := 0
-				for _, a := range added {
-					if !usedAdd[a] && a.Type().String() == baseSet[old] {
-						match = a
-						cnt++
-					}
+				byTypeOld[baseSet[old]] = append(byTypeOld[baseSet[old]], old)
+			}
+			byTypeNew := map[string][]*types.Var{}
+			for _, a := range added {
+				byTypeNew[a.Type().String()] = append(byTypeNew[a.Type().String()], a)
+			}
+			var tkeys []string
+			for t := range byTypeOld {
+				tkeys = append(tkeys, t)
+			}
+			sort.Strings(tkeys)
+			for _, t := range tkeys {
+				olds, news := byTypeOld[t], byTypeNew[t]
+				if len(olds) != len(news) {
+					continue
 				}
-				// only an unambiguous pairing is a rename
-				nOldSameType := 0
-				for _, o2 := range removed {
-					if baseSet[o2] == baseSet[old] {
-						nOldSameType++
-					}
-				}
-				if cnt == 1 && nOldSameType == 1 {
-					usedAdd[match] = true
-					rens = append(rens, ren{match, old, fmt.Sprintf("field %s.%s.%s (was %s)", pk.PkgPath, n, match.Name(), old)})
+				sort.Slice(olds, func(i, j int) bool { return baseOrder[olds[i]] < baseOrder[olds[j]] })
+				sort.Slice(news, func(i, j int) bool { return curOrder[news[i]] < curOrder[news[j]] })
+				for i := range olds {
+					rens = append(rens, ren{news[i], olds[i], fmt.Sprintf("field %s.%s.%s (was %s)", pk.PkgPath, n, news[i].Name(), olds[i])})
 				}
 			}
 		}
